@@ -7,6 +7,11 @@ use std::mem;
 // ---------------------------------------------------------------- plaintexts
 
 pub fn plaintext(rng: &mut Rng, max_len: usize) -> (String, Vec<u8>) {
+    if rng.chance(1, 8) {
+        let mut v = degenerate_plaintext(rng);
+        v.truncate(max_len);
+        return ("degenerate".to_string(), v);
+    }
     let kind = rng.below(9);
     let len = match rng.below(6) {
         0 => rng.below(16) as usize,
@@ -287,6 +292,106 @@ pub fn compress_random(rng: &mut Rng, input: &[u8]) -> (String, Vec<u8>) {
             (format!("miniz:l{}", level), miniz_raw(input, level))
         }
     }
+}
+
+/// Boundary sweeps: the same plaintext cut at every length in a window, under
+/// zlib levels that use lazy matching and small blocks.  Each cut moves the end
+/// of input (and every block boundary) by one byte relative to the matches, so
+/// that the decisions the predictor takes "near the end" and "at a block
+/// boundary" are exercised systematically rather than by luck.
+pub fn sweep_streams(rng: &mut Rng, bases: usize, window: usize) -> Vec<(String, Vec<u8>)> {
+    let mut v = Vec::new();
+    for b in 0..bases {
+        // phrase-structured text: repeated phrases of different lengths with unique separators
+        let nph = rng.range(6, 30) as usize;
+        let phrases: Vec<Vec<u8>> = (0..nph)
+            .map(|_| (0..rng.range(3, 14)).map(|_| b'a' + rng.below(20) as u8).collect())
+            .collect();
+        let mut text: Vec<u8> = Vec::new();
+        // The estimator only concludes "every byte of a match is indexed" (and with it lazy
+        // matching) from a reference into the interior of a maximal-length match: give it one.
+        // R occurs twice (the second time as a 258 byte match), then a piece from its middle.
+        let long: Vec<u8> = (0..rng.range(300, 420)).map(|_| b'a' + rng.below(26) as u8).collect();
+        text.extend_from_slice(&long);
+        text.extend_from_slice(b"#1#");
+        text.extend_from_slice(&long);
+        text.extend_from_slice(b"#2#");
+        text.extend_from_slice(&long[40..40 + rng.range(20, 200) as usize]);
+        text.extend_from_slice(b"#3#");
+        text.extend_from_slice(&long[7..7 + rng.range(5, 30) as usize]);
+        text.extend_from_slice(b"#4#");
+        let target = text.len() + rng.range(300, 2500) as usize;
+        let mut uniq = 0u32;
+        while text.len() < target {
+            let ph: &Vec<u8> = rng.pick(&phrases[..]);
+            text.extend_from_slice(ph);
+            match rng.below(4) {
+                0 => {
+                    uniq += 1;
+                    text.extend_from_slice(format!("{}", uniq).as_bytes());
+                }
+                1 => text.push(b'A' + rng.below(26) as u8),
+                _ => {}
+            }
+        }
+        // an end game for lazy matching: the tail T (k bytes) has a match of exactly k-2
+        // bytes at its first byte and a match of k-1 bytes, reaching the end of input, at
+        // its second byte
+        // the estimator derives max_lazy from the chain depth it saw, which is small for short
+        // texts, so the shortest end game (a 3 byte match) is the one that is usually lazy
+        let k = if rng.chance(2, 3) { 5 } else { rng.range(6, 20) as usize };
+        let tail: Vec<u8> = (0..k).map(|_| b'A' + rng.below(26) as u8).collect();
+        // (the short match must be close by: a 3 byte match far away is not predicted at all)
+        let mut crafted = Vec::new();
+        crafted.extend_from_slice(&text[..2 * text.len() / 3]);
+        crafted.push(b'2');
+        crafted.extend_from_slice(&tail[1..]);
+        crafted.push(b'3');
+        crafted.extend_from_slice(&text[2 * text.len() / 3..]);
+        crafted.extend_from_slice(&tail[..k - 2]);
+        crafted.push(b'1');
+        for i in 0..rng.range(2, 12) {
+            crafted.push(b'0' + ((i * 3 + b as u64) % 10) as u8);
+        }
+        crafted.extend_from_slice(&tail);
+        let configs: [(i32, i32); 8] = [(4, 8), (5, 8), (6, 8), (9, 8), (5, 1), (6, 1), (8, 1), (3, 1)];
+        let (level, mem) = configs[b % configs.len()];
+        let text = if b % 2 == 0 { crafted } else { text };
+        // move the end of input ...
+        for cut in 0..window.min(text.len() - 4) {
+            let p = &text[..text.len() - cut];
+            v.push((format!("sweep{}/zlib:l{}:m{}/cut{}", b, level, mem, cut), zlib_raw(p, level, 0, 15, mem)));
+        }
+        // ... and the block boundaries (blocks close after a fixed number of tokens, so a
+        // prefix of unique literals shifts every boundary against the matches)
+        if mem == 1 {
+            for pad in 1..window.min(160) {
+                let mut p: Vec<u8> = (0..pad).map(|i| 0x80 + ((i * 7 + b) % 120) as u8).collect();
+                p.extend_from_slice(&text);
+                v.push((format!("sweep{}/zlib:l{}:m{}/pad{}", b, level, mem, pad), zlib_raw(&p, level, 0, 15, mem)));
+            }
+        }
+    }
+    v
+}
+
+/// plaintexts whose matches all have the same small distance (one or two used
+/// distance codes, tiny literal alphabets): degenerate Huffman trees
+pub fn degenerate_plaintext(rng: &mut Rng) -> Vec<u8> {
+    let period = rng.range(1, 6) as usize;
+    let unit: Vec<u8> = (0..period).map(|i| b'x' + i as u8).collect();
+    let mut v = Vec::new();
+    let runs = rng.range(1, 60);
+    for r in 0..runs {
+        for i in 0..rng.range(period as u64 * 3, 400) as usize {
+            v.push(unit[i % period]);
+        }
+        if rng.chance(2, 3) {
+            // a separator that never repeats, so that no other distance occurs
+            v.extend_from_slice(format!("<{}>", r * 7919 + 13).as_bytes());
+        }
+    }
+    v
 }
 
 pub fn family(label: &str) -> &str {
